@@ -53,6 +53,17 @@ func standsFor(o ssa.Value, par *ssa.Parameter, depth int) bool {
 			sts := core.StoresTo(al)
 			return len(sts) == 1 && standsFor(sts[0].Val, par, depth+1)
 		}
+		// a field of the environment struct of a method that stands for a literal
+		if fa, isFA := u.X.(*ssa.FieldAddr); isFA {
+			if vals, ok := core.EnvFieldStores(fa); ok {
+				for _, sv := range vals {
+					if !standsFor(sv, par, depth+1) {
+						return false
+					}
+				}
+				return true
+			}
+		}
 		return false
 	}
 	r := core.ResolveFree(o)
@@ -182,8 +193,17 @@ func c16(c *core.Ctx) {
 		}
 	}
 	for _, host := range litHosts {
-		for _, a := range host.AnonFuncs {
-			switch len(a.Params) {
+		lits := append([]*ssa.Function{}, host.AnonFuncs...)
+		// a method whose only use is the method value taken of a struct built here stands for a literal
+		core.Instrs(host, func(in ssa.Instruction) {
+			if _, isMC := in.(*ssa.MakeClosure); isMC {
+				if g := core.InlinedAt[in]; g != nil {
+					lits = append(lits, g)
+				}
+			}
+		})
+		for _, a := range lits {
+			switch len(argParams(a)) {
 			case 4:
 				if unaryWrap == nil {
 					unaryWrap = a
@@ -216,7 +236,7 @@ func c16(c *core.Ctx) {
 					return isC && core.InfoOf(&call.Call).Dyn
 				}, nil)
 				c.Check(ok && mn == 1 && mx == 1, uk+":original-once", orig.Pos(), "exactly one dynamic call (the original handler) on every path", fmt.Sprintf("the decorated handler makes between %d and %d dynamic calls, want exactly the one call of the original handler", mn, mx))
-				transportPar := unaryWrap.Params[3]
+				transportPar := argParams(unaryWrap)[3]
 				okCallee, okArgs := true, true
 				type alt struct {
 					v  ssa.Value
@@ -237,7 +257,7 @@ func c16(c *core.Ctx) {
 						okCallee = false
 					}
 					for i := 0; i < 3; i++ {
-						if !isParamVal(oc.Call.Args[i], unaryWrap.Params[i]) {
+						if !isParamVal(oc.Call.Args[i], argParams(unaryWrap)[i]) {
 							okArgs = false
 						}
 					}
@@ -385,7 +405,7 @@ func c16(c *core.Ctx) {
 			okS := len(sd) == 1
 			if okS {
 				sc := sd[0]
-				okS = len(sc.Call.Args) == 4 && isParamVal(sc.Call.Args[0], streamWrap.Params[0]) && isParamVal(sc.Call.Args[1], streamWrap.Params[1]) && returnsCall(streamWrap, sc)
+				okS = len(sc.Call.Args) == 4 && isParamVal(sc.Call.Args[0], argParams(streamWrap)[0]) && isParamVal(sc.Call.Args[1], argParams(streamWrap)[1]) && returnsCall(streamWrap, sc)
 				isDec := false
 				for _, o := range calleeOrigins(sc) {
 					if o == ssa.Value(dec.Params[2]) {
@@ -939,4 +959,14 @@ func slashNormalised(p *core.Prog, v ssa.Value) bool {
 		}
 	}
 	return false
+}
+
+// argParams: the declared parameters of fn; for a method that stands for a
+// function literal (its only use is a method value of a struct built on the
+// spot) without the receiver.
+func argParams(fn *ssa.Function) []*ssa.Parameter {
+	if _, isMC := core.InlineSite[fn].(*ssa.MakeClosure); isMC && fn.Signature.Recv() != nil && len(fn.Params) > 0 {
+		return fn.Params[1:]
+	}
+	return fn.Params
 }
